@@ -2,4 +2,69 @@
 import KB.Props.C02Store
 import KB.Props.C01
 namespace KB
+
+/-! ### the dealt counter never falls below its initial value, and neither does any begin stamp -/
+
+/-- every begin stamp (of requests in flight and of finished ones) is at least `ts`, and so is the counter -/
+structure LowInv (ts : Nat) (v : View) : Prop where
+  dl : ts ≤ v.dealt
+  cl : ∀ c ∈ v.clients, ts ≤ c.beginDealt
+  dn : ∀ d ∈ v.done, ts ≤ d.beginDealt
+
+theorem LowInv.closed (ts : Nat) : Closed (LowInv ts) where
+  dealTo := by
+    intro v c pc h hc _ _
+    obtain ⟨dl, cl, dn⟩ := h
+    constructor <;> simp only [View.setPc, View.setC, View.deal, mem_setPc] <;> grind
+  move := by
+    intro v c pc h hc _ _ _
+    obtain ⟨dl, cl, dn⟩ := h
+    constructor <;> simp only [View.setPc, View.setC, mem_setPc] <;> grind
+  report := by
+    intro v c w h hc _ fb
+    obtain ⟨dl, cl, dn⟩ := h
+    constructor <;> simp only [View.setPc, View.setC, View.push, mem_setPc] <;> split <;> grind
+  ret := by
+    intro v c r fb h hc _ res
+    obtain ⟨dl, cl, dn⟩ := h
+    constructor <;> simp only [View.fin, mem_fin, List.mem_append, List.mem_singleton] <;> grind
+  consume := by
+    intro v w h _ _
+    obtain ⟨dl, cl, dn⟩ := h
+    constructor <;> simp only [View.consume] <;> grind
+  dealPush := by
+    intro v w h _
+    obtain ⟨dl, cl, dn⟩ := h
+    constructor <;> simp only [View.deal, View.push] <;> split <;> grind
+  spawn := by
+    intro v id h _ kind
+    obtain ⟨dl, cl, dn⟩ := h
+    constructor <;> simp only [View.spawn, List.mem_append, List.mem_singleton] <;> grind
+
+theorem LowInv.init {g : G} (h3 : g.clients = []) (h4 : g.done = []) : LowInv g.dealt g.view := by
+  constructor <;> simp [G.view, h3, h4]
+
+/-! ### both filters of `visible` coincide when the bound dominates every stored revision -/
+
+theorem visible_eq_of_all_le {recs : List Rec} {R R' : Nat} (h : ∀ r ∈ recs, r.rev ≤ R ∧ r.rev ≤ R') (k : Bytes) :
+    visible R recs k = visible R' recs k := by
+  unfold visible
+  congr 1
+  apply List.filter_congr
+  intro r hr
+  have := h r hr
+  simp [this.1, this.2]
+
+/-- a record of a decoded store is found in any other decoding of the same store, provided its revision
+fits 8 bytes -/
+theorem rec_of_encodeStore_eq {recs recs' : List Rec} (h : encodeStore recs = encodeStore recs')
+    {r : Rec} (hr : r ∈ recs) (hb : r.rev < 2 ^ 64) (hb' : ∀ r' ∈ recs', r'.rev < 2 ^ 64) :
+    ∃ r' ∈ recs', r'.key = r.key ∧ r'.rev = r.rev := by
+  have hm : (encode r.key r.rev, r.val) ∈ encodeStore recs := List.mem_map.mpr ⟨r, hr, rfl⟩
+  rw [h] at hm
+  obtain ⟨r', hr', e⟩ := List.mem_map.mp hm
+  simp only [Prod.mk.injEq] at e
+  obtain ⟨e1, e2⟩ := encode_inj (hb' r' hr') hb e.1
+  exact ⟨r', hr', e1, e2⟩
+
 end KB
